@@ -57,13 +57,7 @@ Theorem C08_other_direction : forall c st sid s d chunk gs,
   stream_send st' sid (length (only sid (gone st))) chunk = (with_sendq st' (sendq st' ++ [(sid, chunk)]), WOk) /\
   fst (write_ctrl st (mk Fin sid [])) = [Send (mk Fin sid [])] /\
   exists s', lookup sid (tbl (fst (handle_all c st gs))) = Some s' /\ rd s' = rd_pushes (rd s) (pushes sid gs).
-Proof.
-  intros c st sid s d chunk gs Hok Hwf Hc Hd Hl Hs Hq. cbv zeta.
-  split; [apply other_direction_writer; exact Hc|].
-  split; [apply (other_direction_stream c st sid s d chunk); assumption|].
-  destruct (other_direction_sender c st sid s gs Hok Hd Hl Hq) as [H1 H2].
-  rewrite Hc in H1. split; [exact H1 | exact H2].
-Qed.
+Proof. exact other_direction. Qed.
 Print Assumptions C08_other_direction.
 
 (* receive-side cleanup: after the FIN no table contains the id; when the session ends no table contains
@@ -72,10 +66,7 @@ Theorem C08_cleanup : forall c st sid d,
   wf_sess st ->
   lookup sid (tbl (fst (handle c st (mk Fin sid d)))) = None /\
   (s_closed st = false -> tbl (fst (close st)) = []).
-Proof.
-  intros c st sid d Hwf. destruct (fin_effect c st sid d Hwf) as (_ & H & _).
-  split; [exact H|]. intros Hc. unfold close. rewrite Hc. reflexivity.
-Qed.
+Proof. exact cleanup. Qed.
 Print Assumptions C08_cleanup.
 
 (* KNOWN FINDING F1: at none of the four sites is anything written when the local input ends, and no
@@ -88,11 +79,7 @@ Theorem C08_propagates_refuted : forall site st sid k,
   (forall st2, no_fin (snd (fst (open st2)))) /\
   (forall st2, no_fin (snd (pump st2))) /\
   (forall c st2 f, no_fin (snd (handle c st2 f))).
-Proof.
-  intros site st sid k. split; [apply local_eof_silent|].
-  split; [intros; apply write_data_no_fin|]. split; [intros; apply open_no_fin|].
-  split; [intros; apply pump_no_fin | intros; apply handle_no_fin].
-Qed.
+Proof. exact propagates_refuted. Qed.
 Print Assumptions C08_propagates_refuted.
 
 (* the concrete run behind the finding, for each site: A opens stream 1, writes data, its input ends;
